@@ -658,3 +658,93 @@ func multiVerify(runs []*mRun, e *env, w *CaseWriter) {
 		m.verifyAndEmit(context.Background(), e, w)
 	}
 }
+
+// ---------- timed family: one signature, the verification clock is an input ----------
+
+const timedBase = 500000
+
+// timedCases: short-lived signatures (1 s) verified after their expiry, and (2 s) before it; OCI and
+// blob, every signer kind; plus requests that are refused before the expiry is looked at.
+func timedCases(seed uint64, tier string) []*c07Case {
+	rng := NewRng(seed*104729 + 5)
+	g := &generator{rng: rng, tier: tier}
+	var out []*c07Case
+	n := 0
+	mk := func(fam, kind string, s sk, after bool) *c07Case {
+		n++
+		c := g.base(fam, multiKeys[n%len(multiKeys)], formats[(n/2)%2], kind, s)
+		c.Timed = true
+		c.VMeta = nil
+		if after {
+			c.DurNs, c.WaitExpiry = int64(time.Second), true
+		} else {
+			c.DurNs = 2 * int64(time.Second)
+		}
+		return c
+	}
+	for _, kind := range []string{"oci", "blob"} {
+		for _, s := range signerKinds {
+			out = append(out, mk("expired", kind, s, true))
+			out = append(out, mk("short-lived-not-expired", kind, s, false))
+		}
+		c := mk("expired-untrusted", kind, signerKinds[0], true)
+		c.Trusted = false
+		out = append(out, c)
+		c = mk("expired-metadata-demanded", kind, signerKinds[1], true)
+		c.Meta = map[string]string{"stage": "prod"}
+		c.VMeta = map[string]string{"stage": "prod"}
+		out = append(out, c)
+		c = mk("expired-tampered", kind, signerKinds[2], true)
+		if kind == "oci" {
+			c.VOCI.Size++
+		} else {
+			c.VBlob.Extra = 1
+		}
+		out = append(out, c)
+	}
+	c := mk("expired-bad-media-type", "blob", signerKinds[0], true)
+	c.VBlob.MT = "bad/"
+	out = append(out, c)
+	c = mk("expired-no-media-type", "blob", signerKinds[0], true)
+	c.VBlob.MT = ""
+	out = append(out, c)
+	return out
+}
+
+// timedStart runs the timed cases in goroutines (each waits for its own signature to expire) while the
+// other families run; the returned function waits for them and records the cases in id order.
+func timedStart(a *Args, w *CaseWriter, exec func(*c07Case, int64, bool, *override) *execResult) func(add func(int64, *c07Case, *execResult)) {
+	if a.Only >= 0 && (a.Only < timedBase || a.Only >= multiBase) {
+		return func(func(int64, *c07Case, *execResult)) {}
+	}
+	cases := timedCases(a.Seed, a.Tier)
+	results := make([]*execResult, len(cases))
+	done := make(chan int, len(cases))
+	started := 0
+	for i, c := range cases {
+		id := int64(timedBase + i)
+		if !w.Want(id) {
+			continue
+		}
+		started++
+		go func(i int, c *c07Case, id int64) {
+			defer func() {
+				if r := recover(); r != nil {
+					results[i] = &execResult{viol: []string{fmt.Sprint("panic in the library or the harness: ", r)}}
+				}
+				done <- i
+			}()
+			results[i] = exec(c, id, true, nil)
+		}(i, c, id)
+	}
+	return func(add func(int64, *c07Case, *execResult)) {
+		for ; started > 0; started-- {
+			<-done
+		}
+		for i, c := range cases {
+			if results[i] != nil {
+				add(int64(timedBase+i), c, results[i])
+			}
+		}
+	}
+}
